@@ -299,18 +299,25 @@ fn one(st: &mut Stats, seed: u64) {
     let sid = 1u32;
     // local read script
     let mut rscript = VecDeque::new();
-    let n_chunks = rng.range(0, 10);
+    // one case in five: a local side with a lot of data ready at once (a fast producer, a reader that was away): many large chunks
+    // with hardly a Pending between them, so that one poll of the bridge sees far more than any internal buffer or frame size
+    let burst = rng.chance(1, 5);
+    let n_chunks = if burst { rng.range(4, 24) } else { rng.range(0, 10) };
     let err_pos = rng.below(n_chunks + 1);
     for i in 0..n_chunks {
         if case.err_site == Some("read") && i == err_pos {
             rscript.push_back(REv::Err(kind));
             break;
         }
-        match rng.below(6) {
+        match rng.below(if burst { 24 } else { 6 }) {
             0 => rscript.push_back(REv::PendWake(rng.range(1, 6))),
             _ => {}
         }
-        rscript.push_back(REv::Data(*rng.pick(&[1usize, 2, 100, 1024, 8192])));
+        if burst {
+            rscript.push_back(REv::Data(*rng.pick(&[8192usize, 8192, 8192, 16_384, 65_536, 100_000])));
+        } else {
+            rscript.push_back(REv::Data(*rng.pick(&[1usize, 2, 100, 1024, 8192])));
+        }
         if case.err_site == Some("read-after-data") && i == err_pos.min(n_chunks - 1) {
             // Ready(Err) immediately after Ready(Ok(data)): the bridge's coalescing loop sees it
             rscript.push_back(REv::Err(kind));
@@ -465,6 +472,12 @@ fn one(st: &mut Stats, seed: u64) {
     st.cell("local_flush", ["ready", "needs-several-polls", "pending-for-ever"][flush_mode as usize]);
     if flush_mode == 2 {
         st.target("runs_with_local_flush_stuck", 1);
+    }
+    if burst {
+        st.target("runs_with_large_local_bursts", 1);
+        if local_total > 65_536 {
+            st.target("runs_with_more_than_64k_ready_at_once", 1);
+        }
     }
     // data oracles (always)
     let far_key = wl::data_key(seed, sid, 1);
